@@ -129,7 +129,7 @@ static void history(vh::Rng& g, const std::string& prop, bool lifetimeOnly)
 	bool reuse = g.chance(1, 2);    // the library keeps one functor object per loop: reuse them across applies
 	std::string trace = reuse ? "[functors reused]" : "[fresh functors]"; bool failed = false; bool sharing = false;
 	{
-		F1<D> rf1; F2<D> rf2; F3<D> rf3;
+		F1<D> rf1; F2<D> rf2; F3<D> rf3; V2<D> rv2; V1<D> rv1;   // reused across steps when `reuse` (also after a stopProcessing)
 		std::vector<H<D>> pool; int L = g.range(10, 50);
 		auto viol = [&](const std::string& key, const std::string& d) { R->violation(prop + "/" + key, d + " after " + trace); failed = true; };
 		for (int st = 0; st < L && !failed; ++st)
@@ -153,14 +153,17 @@ static void history(vh::Rng& g, const std::string& prop, bool lifetimeOnly)
 					case 10: if (room) { // a temporary result that dies at once
 						opSel = static_cast<int>(g.below(5)); if (reuse) { M tmp = rf2(*pool[i].m, *pool[j].m); (void)tmp; } else { F2<D> f; M tmp = f(*pool[i].m, *pool[j].m); (void)tmp; } trace += "apply2-temporary;"; } break;
 					case 11: { // void apply visitors: exactly the reachable leaf tuples are visited
-						V2<D> v; v(*pool[i].m, *pool[j].m); std::set<std::pair<D, D>> exp; for (unsigned x = 0; x < T; ++x) exp.insert(std::make_pair(pool[i].tab[x], pool[j].tab[x]));
+						V2<D> fv; V2<D>& v = reuse ? rv2 : fv; v.seen.clear(); v.stopAfter = -1; v.calls = 0;
+						v(*pool[i].m, *pool[j].m); std::set<std::pair<D, D>> exp; for (unsigned x = 0; x < T; ++x) exp.insert(std::make_pair(pool[i].tab[x], pool[j].tab[x]));
 						if (v.seen != exp) viol("void-apply2/visited-set", "visited " + vh::str(v.seen.size()) + " leaf pairs, expected " + vh::str(exp.size()));
-						V1<D> w; w(*pool[k].m); std::set<D> e1(pool[k].tab.begin(), pool[k].tab.end()); if (w.seen != e1) viol("void-apply1/visited-set", "");
-						trace += "void-apply;"; } break;
-					case 12: { // stopProcessing is respected: no further leaf is visited
-						V2<D> v; v.stopAfter = 1; v(*pool[i].m, *pool[j].m); if (v.calls > 1) viol("void-apply2/stop-ignored", "visitor called " + vh::str(v.calls) + " times after stopProcessing");
+						V1<D> fw; V1<D>& w = reuse ? rv1 : fw; w.seen.clear(); w(*pool[k].m); std::set<D> e1(pool[k].tab.begin(), pool[k].tab.end()); if (w.seen != e1) viol("void-apply1/visited-set", "");
+						trace += "void-apply;"; R->count("void-applies"); } break;
+					case 12: { // stopProcessing is respected: no further leaf is visited (and the stop does not outlive the call)
+						V2<D> fv; V2<D>& v = reuse ? rv2 : fv; v.seen.clear(); v.calls = 0; v.stopAfter = 1;
+						v(*pool[i].m, *pool[j].m); if (v.calls > 1) viol("void-apply2/stop-ignored", "visitor called " + vh::str(v.calls) + " times after stopProcessing");
+						if (v.calls < 1) viol("void-apply2/nothing-visited", "no leaf pair visited");
 						std::set<std::pair<D, D>> exp; for (unsigned x = 0; x < T; ++x) exp.insert(std::make_pair(pool[i].tab[x], pool[j].tab[x])); for (auto& p : v.seen) if (!exp.count(p)) viol("void-apply2/visited-unreachable-pair", "");
-						trace += "void-apply-stop;"; } break;
+						trace += "void-apply-stop;"; R->count("void-applies-stopped"); } break;
 					default: { // accumulate several cubes with an idempotent join into one handle
 						FJoin<D> fj; H<D> c; buildFromAsgn(g, NV, c, trace); std::vector<D> t; for (unsigned x = 0; x < T; ++x) t.push_back(Ops<D>::join(pool[i].tab[x], c.tab[x])); *pool[i].m = fj(*pool[i].m, *c.m); pool[i].tab = t; trace += "join-cube;"; } break;
 				}
